@@ -535,6 +535,11 @@ func (g *graph) updateToValidateMap() error {
 				if startNodeOutputType == nil && endNodeInputType == nil {
 					continue
 				}
+				if len(endNode.mappings) > 0 && (startNodeOutputType == nil || endNodeInputType == nil) {
+					// a field-mapped edge connects a field, not the whole value: it cannot give an untyped
+					// (pass-through) end its type; wait until another edge has typed it
+					continue
+				}
 
 				// update toValidateMap
 				g.toValidateMap[startNode] = append(g.toValidateMap[startNode][:i], g.toValidateMap[startNode][i+1:]...)
